@@ -36,6 +36,17 @@ fn c05_criteria_at() {
     assert!(got == if asc { base } else { base.reverse() },
             "OBL C05.criteria.at: numeric key -> numeric comparison, else date key -> chronological, else string; desc reverses");
 }
+// numeric keys compare by numeric value (10 > 9, and 16777217 > 16777216), string keys by the value's own order
+#[kani::proof]
+#[kani::unwind(3)]
+fn c05_key_numeric() {
+    let a: u64 = kani::any(); let b: u64 = kani::any();
+    let x = FragKey { values: vec![KVal(a)] };
+    let y = FragKey { values: vec![KVal(b)] };
+    kani::cover!(a > (1u64 << 24) && a < u64::MAX && b == a + 1);
+    assert!(x.cmp_at_numbers(&y, 0) == a.cmp(&b), "OBL C05.key.numeric: a numeric key compares by exact numeric value, for all u64 values");
+    assert!(x.cmp_at_direct(&y, 0) == KVal(a).cmp(&KVal(b)), "OBL C05.key.direct: any other key compares by the value's own order");
+}
 #[kani::proof]
 #[kani::unwind(3)]
 fn canary_criteria_must_fail() {
